@@ -37,3 +37,28 @@ Theorem reduce_decode_unfixed_refuted :
   exists i2p0 buf0 s, bytes_ok s = true /\ decode false i2p0 buf0 s = Oob 4 4294967299.
 Proof. exact decode_unfixed_oob. Qed.
 Print Assumptions reduce_decode_unfixed_refuted.
+
+(* Truncation: every proper prefix of a stream the decoder accepts is rejected (in particular every
+   truncation of an encoder output, by reduce_roundtrip).  Holds for both versions of the checks. *)
+Theorem reduce_truncated_rejected : forall fx i2p0 buf0 p q d,
+  q <> [] -> decode fx i2p0 buf0 (p ++ q) = Accept d -> decode fx i2p0 buf0 p = Reject.
+Proof. exact decode_truncated. Qed.
+Print Assumptions reduce_truncated_rejected.
+
+(* Extension: every proper extension of an accepted stream is rejected. *)
+Theorem reduce_extended_rejected : forall fx i2p0 buf0 s q d,
+  q <> [] -> decode fx i2p0 buf0 s = Accept d -> decode fx i2p0 buf0 (s ++ q) = Reject.
+Proof. exact decode_extended. Qed.
+Print Assumptions reduce_extended_rejected.
+
+(* Integrity: whatever stream is accepted (altered or not), it has the shape PREFIX, body, 0 tag,
+   eight bytes, and those eight bytes are the little-endian check hash ([chain]: mir_hash_strict
+   chained over the BUF_LEN-sized pieces, seed CHECK_HASH_SEED) of exactly the data delivered.
+   This is the provable form of "an altered stream is reported as a failure": an alteration is
+   either rejected or yields data whose 64-bit hash equals the (possibly altered) trailer. *)
+Theorem reduce_accept_integrity : forall fx i2p0 buf0 s d,
+  decode fx i2p0 buf0 s = Accept d ->
+  exists body hs, s = PREFIX ++ body ++ 0 :: hs /\ length hs = 8%nat
+                  /\ chain d CHECK_HASH_SEED (le_value hs).
+Proof. exact decode_accept_integrity. Qed.
+Print Assumptions reduce_accept_integrity.
